@@ -458,12 +458,23 @@ class Fetcher:
     def expand_templates_from_title(self, title):
         nsnum, _, _ = self.nshandler.splitname(title)
 
-        text = "{{:%s}}" % title if nsnum == 0 else "{{%s}}" % title
+        # Resolve redirects first (the API follows whole chains) and skip titles the wiki has
+        # no page for: transcluding a missing page yields a red link and transcluding a double
+        # redirect yields the text of the second redirect page, neither is the article.
+        res = self.api.do_request(action="query", titles=title, redirects=1)
+        self._update_redirects(res.get("redirects", []))
+        pages = list(res.get("pages", {}).values())
+        if not pages or "missing" in pages[0] or "invalid" in pages[0]:
+            return
+        target = pages[0].get("title") or title
+        target_ns, _, _ = self.nshandler.splitname(target)
+
+        text = "{{:%s}}" % target if target_ns == 0 else "{{%s}}" % target
 
         # produces deprecated output format, might have to add prop param and handle output
         # check https://commons.wikimedia.org/w/api.php?action=help&modules=expandtemplates
         res = self.api.do_request(
-            action="expandtemplates", title=title, text=text, prop="wikitext"
+            action="expandtemplates", title=target, text=text, prop="wikitext"
         )
         txt = res.get("wikitext")
         if txt:
